@@ -253,6 +253,17 @@ def run_all(modname, tier, jobs):
             if st == "ok":
                 units += [(modname, i, u, tier) for u in pl]
         parts = mapper(_unit, units)
+        # a unit that died on a solver-internal error (z3 context in a bad state) is retried once in a
+        # fresh process before it is reported as a crash
+        redo = [i for i, p in enumerate(parts) if isinstance(p, dict) and "crash" in p and "Z3Exception" in str(p["crash"])]
+        if redo and not serial:
+            import concurrent.futures as cf
+            for i in redo:
+                try:
+                    with cf.ProcessPoolExecutor(max_workers=1, mp_context=mp.get_context("fork")) as ex:
+                        parts[i] = ex.submit(_unit, units[i]).result()
+                except Exception:
+                    pass
     finally:
         pass
     results = []
